@@ -65,6 +65,7 @@ type world struct {
 	render     int               // how the abstract command letters are written (cmdRenderings)
 	keyless    map[string]bool   // principals written as did:key identifiers that parse but hold no usable key
 	lookalike  map[string]string // principals whose did:key text is another principal's with the case of one letter changed
+	chosen     map[string]bool   // catalogue statements handed out so far (policyFor looks for their twins)
 }
 
 // keylessDID: a did:key the parser accepts (known multicodec) whose key material cannot be a key (an Ed25519 key one
@@ -380,7 +381,23 @@ func catalogueSelfCheck() []string {
 	return bad
 }
 
+// twins: two statements that PRINT alike and mean something else (DAG-JSON writes the float 1.0 as 1; numbers of different
+// kinds are never equal): each statement of each link binds the arguments - also a statement that looks like one seen before.
+var policyTwins = map[string]string{
+	`["==", ".x", 1]`: `["==", ".x", 1.0]`, `["==", ".x", 1.0]`: `["==", ".x", 1]`,
+	`["not", ["==", ".x", 1]]`: `["not", ["==", ".x", 1.0]]`, `["not", ["==", ".x", 1.0]]`: `["not", ["==", ".x", 1]]`,
+	`["<=", ".x", 1]`: `["<=", ".x", 1.0]`, `["<=", ".x", 1.0]`: `["<=", ".x", 1]`,
+}
+
+func init() {
+	policyCatalogue["[]"] = append(policyCatalogue["[]"], `["==", ".x", 1.0]`, `["<=", ".x", 1.0]`)
+	policyCatalogue["[0 1 2]"] = append(policyCatalogue["[0 1 2]"], `["not", ["==", ".x", 1.0]]`)
+}
+
 func (w *world) policyFor(pol [][]bool) (policy.Policy, string, error) {
+	if w.chosen == nil {
+		w.chosen = map[string]bool{}
+	}
 	parts := make([]string, len(pol))
 	for i, set := range pol {
 		opts := policyCatalogue[accKey(set)]
@@ -388,6 +405,25 @@ func (w *world) policyFor(pol [][]bool) (policy.Policy, string, error) {
 			return nil, "", fmt.Errorf("no catalogue entry for %v", set)
 		}
 		parts[i] = opts[w.rng.Intn(len(opts))]
+		// half of the time: the twin of a statement handed out before, else a statement that has a twin, when this
+		// acceptance set has one
+		if w.rng.Intn(2) == 0 {
+			var withTwin, twinOfChosen []string
+			for _, o := range opts {
+				if t, ok := policyTwins[o]; ok {
+					withTwin = append(withTwin, o)
+					if w.chosen[t] {
+						twinOfChosen = append(twinOfChosen, o)
+					}
+				}
+			}
+			if len(twinOfChosen) > 0 {
+				parts[i] = twinOfChosen[w.rng.Intn(len(twinOfChosen))]
+			} else if len(withTwin) > 0 {
+				parts[i] = withTwin[w.rng.Intn(len(withTwin))]
+			}
+		}
+		w.chosen[parts[i]] = true
 	}
 	text := "[" + strings.Join(parts, ", ") + "]"
 	p, err := policy.FromDagJson(text)
